@@ -463,6 +463,11 @@ func tryConvertToInt(v any) (int, bool) {
 		return int(value), true
 	case float64:
 		return int(value), true
+	// msgpack clients may encode integers unsigned and floats in 32 bits
+	case uint64:
+		return int(value), true
+	case float32:
+		return int(value), true
 	case bool:
 		return 0, false
 	case string:
@@ -483,6 +488,11 @@ func tryConvertToFloat(v any) (float64, bool) {
 	case int:
 		return float64(value), true
 	case int64:
+		return float64(value), true
+	// msgpack clients may encode integers unsigned and floats in 32 bits
+	case uint64:
+		return float64(value), true
+	case float32:
 		return float64(value), true
 	case bool:
 		return 0, false
